@@ -194,6 +194,11 @@ func (x *Exec) Bubble(f func(w *World)) {
 }
 
 func (x *Exec) absorb(w *World) {
+	if os.Getenv("VERIF_TRACE") != "" {
+		for _, e := range w.S.Log {
+			fmt.Fprintln(os.Stderr, "  ", e.String())
+		}
+	}
 	x.hash.WriteString(LogHash(w.S.Log))
 	x.Res.Events += len(w.S.Log)
 	x.Res.Steps += w.Stats.Steps
@@ -247,6 +252,13 @@ func Execute(t *testing.T, p *Program) *Result {
 		x.rng = NewRng(p.Seed, 2)
 	}
 	old := debug.SetGCPercent(-1)
+	watchdog := time.AfterFunc(time.Duration(envInt("VERIF_RUN_TIMEOUT_S", 90))*time.Second, func() {
+		buf := make([]byte, 1<<20)
+		n := runtime.Stack(buf, true)
+		fmt.Fprintf(os.Stderr, "HANG %d: run exceeded its wall-clock budget\n%s\n", p.Seed, relevantStacks(string(buf[:n])))
+		os.Exit(3)
+	})
+	defer watchdog.Stop()
 	func() {
 		defer func() {
 			if r := recover(); r != nil {
@@ -319,4 +331,22 @@ func SaveProgram(path string, p *Program) error {
 		return err
 	}
 	return os.WriteFile(path, append(b, '\n'), 0o644)
+}
+
+// relevantStacks keeps the goroutines that are running code of the repository or mast.
+func relevantStacks(all string) string {
+	var keep []string
+	for _, g := range strings.Split(all, "\n\n") {
+		if strings.Contains(g, "jrhy/") && !strings.Contains(g, "synctest.Wait") {
+			lines := strings.Split(g, "\n")
+			if len(lines) > 14 {
+				lines = lines[:14]
+			}
+			keep = append(keep, strings.Join(lines, "\n"))
+		}
+		if len(keep) >= 4 {
+			break
+		}
+	}
+	return strings.Join(keep, "\n\n")
 }
